@@ -20,7 +20,7 @@ Theorem lo_call_spec o i r1 r2 o' i' v : lo_call C base o i r1 r2 = (o', i', Som
   method o' = method o.                                   (* the method option is restored after the BFGS fallback *)
 Proof.
   unfold lo_call. destruct (needs_opt C i) eqn:En.
-  - unfold optimize. destruct r1 as [tr fin|tr].
+  - unfold optimize. destruct (consts C i) as [|c0 cs]; [intros [= <- <- <-]; repeat split; auto|]. destruct r1 as [tr fin|tr].
     + intros [= <- <- <-]. repeat split; auto.
     + destruct r2 as [tr2 fin2|tr2]; [|discriminate]. intros [= <- <- <-]. repeat split; auto.
   - intros [= <- <- <-]. repeat split; auto; discriminate.
@@ -28,12 +28,14 @@ Qed.
 
 Theorem lo_call_final_constants o i r1 r2 o' i' v : lo_call C base o i r1 r2 = (o', i', Some v) ->
   needs_opt C i = true ->
+  (consts C i = [] /\ consts C i' = []) \/                  (* no constants: scipy is not consulted *)
   (exists tr fin, r1 = Returns C tr fin /\ consts C i' = fin) \/
   (exists tr tr2 fin, r1 = RaisesTypeError C tr /\ r2 = Returns C tr2 fin /\ consts C i' = fin).
 Proof.
-  unfold lo_call. intros H En. rewrite En in H. unfold optimize in H. destruct r1 as [tr fin|tr].
-  - injection H as <- <- <-. left. exists tr, fin. auto.
-  - destruct r2 as [tr2 fin2|tr2]; [|discriminate]. injection H as <- <- <-. right. exists tr, tr2, fin2. auto.
+  unfold lo_call. intros H En. rewrite En in H. unfold optimize in H.
+  destruct (consts C i) as [|c0 cs]; [injection H as <- <- <-; left; auto|]. destruct r1 as [tr fin|tr].
+  - injection H as <- <- <-. right. left. exists tr, fin. auto.
+  - destruct r2 as [tr2 fin2|tr2]; [|discriminate]. injection H as <- <- <-. right. right. exists tr, tr2, fin2. auto.
 Qed.
 
 (* 4: an individual that does not request optimization is evaluated with its constants untouched, scipy is not consulted *)
